@@ -107,11 +107,13 @@ PROPS["C01"] = {
     "trusted_base": _SYS_TRUSTED,
 }
 PROPS["C02"] = {
-    "suites": [{"name": "sched", "stateful": True, "quick": 1500, "thorough": 30000, "thorough_seeds": 4}],
-    "trip_re": "blocked",
+    "suites": [{"name": "sched", "stateful": True, "quick": 1500, "thorough": 30000, "thorough_seeds": 4},
+               {"name": "proxy", "stateful": True, "seq_marker": "case", "quick": 30, "thorough": 300, "thorough_seeds": 1}],
+    "trip_re": "blocked|upstream_hang_not_ended",
     "rule": _SCHED_RULE + " A goroutine that does not reach its next stop within 5 s, or is not finished when the schedule has been wound down, trips 'blocked'.",
     "assumptions": ["every upstream request ends (the property conditions on it; the proxy timeout converts a silent upstream into 504)",
-                    "store calls made under a mutex return"],
+                    "store calls made under a mutex return",
+                    "proxy: one directed history with an upstream that never answers (proxy timeout 300 ms) and a second request coalesced behind the first"],
     "trusted_base": _SYS_TRUSTED,
 }
 PROPS["C04"] = {
